@@ -299,24 +299,30 @@ def generalise_literal(module, func_name, literal, values):
         return False
     tree = ast.parse(src)
     hits = [0]
+    # `literal` may also be a table {literal: values} (one pass for all)
+    table = (dict(literal) if isinstance(literal, dict)
+             else {literal: list(values)})
 
     class T(ast.NodeTransformer):
         def visit_Constant(self, node):
-            if type(node.value) is int and node.value == literal:
+            if type(node.value) is int and node.value in table:
                 hits[0] += 1
                 return ast.copy_location(ast.Call(
                     func=ast.Name(id='__symx_literal__', ctx=ast.Load()),
-                    args=[ast.Constant(literal)], keywords=[]), node)
+                    args=[ast.Constant(node.value)], keywords=[]), node)
             return node
     tree = T().visit(tree)
     if not hits[0]:
         return False
     ast.fix_missing_locations(tree)
     ns = module.__dict__
-    vals = list(values)
+    known = ns.setdefault('__symx_literal_values__', {})
+    for lit, vs in table.items():
+        known[lit] = list(vs)
 
     def chosen(lit):
         ctx = core.CUR
+        vals = known[lit]
         key = f"block_size_for_{lit}"
         if key not in ctx.notes:          # notes are per path
             ctx.notes[key] = vals[ctx.choice(key, len(vals))]
@@ -329,6 +335,40 @@ def generalise_literal(module, func_name, literal, values):
     new = scratch[func_name]
     patch(module, func_name, new)
     return True
+
+
+def generalise_large_literals(module, min_value=1000, small=(1, 2, 3),
+                              skip=()):
+    """every integer literal >= min_value inside a plain function of
+    `module` is a blocking / batching size as far as a handful of symbolic
+    rows is concerned (the loops it governs are unreachable with them):
+    each is re-compiled with `generalise_literal` so that the solver also
+    runs the function with blocks of 1, 2 and 3.  Functions named in
+    `skip` keep their literals (scales such as counts-per-million are
+    semantic, not blocking).  Returns {function: [literals]} for the
+    evidence; on a tree without such literals it does nothing."""
+    import ast
+    import inspect
+    import textwrap
+    import types
+    done = {}
+    for name, fn in list(vars(module).items()):
+        if not isinstance(fn, types.FunctionType) or name in skip:
+            continue
+        if getattr(fn, '__module__', None) != module.__name__:
+            continue
+        try:
+            tree = ast.parse(textwrap.dedent(inspect.getsource(fn)))
+        except (OSError, TypeError, SyntaxError):
+            continue
+        lits = sorted({n.value for n in ast.walk(tree)
+                       if isinstance(n, ast.Constant)
+                       and type(n.value) is int and n.value >= min_value})
+        if lits and generalise_literal(
+                module, name, {lit: [lit] + list(small) for lit in lits},
+                None):
+            done[name] = lits
+    return done
 
 
 # ------------------------------------------------------------------ hash seed
